@@ -309,6 +309,25 @@ Definition no_integer_in_range (tc : etc) (t : bytes) : Prop :=
   classify t <> COther /\
   forall z, text_denotes t z -> in_range (is_signed (e_base tc)) (e_m tc) z = false.
 
+Lemma doc_reaches_ok H big_other td f' tn' v' dg :
+  doc_reaches td f' tn' v' -> EncodeTypedDataV4 H big_other (Some td) = Ok dg ->
+  exists w', encodeElement H big_other (effective_types (td_types td)) f' tn' v' = Ok w'.
+Proof.
+  intros Hreach E.
+  unfold EncodeTypedDataV4 in E. cbv zeta in E. fold (effective_types (td_types td)) in E.
+  set (ts := effective_types (td_types td)) in *.
+  destruct (td_primary td) as [|pb pr] eqn:Ep; [discriminate|].
+  unfold HashStruct, fuel_of in E.
+  match type of E with (do _ <- ?c; _) = _ => destruct c as [dh| |] eqn:Ed end; cbn [bind] in E; try discriminate.
+  destruct Hreach as [(tm & Hin & Hr)|(Hne & msg & tm & Em & Hin & Hr)].
+  - destruct (hashStruct_ok_member H big_other ts _ _ _ _ Ed tm Hin) as [w1 Hw1].
+    exact (reaches_ok H big_other ts _ _ _ _ _ _ Hr w1 Hw1).
+  - rewrite Ep in Hne, Hin. rewrite Hne in E. cbn [negb] in E. rewrite Em in E. cbn [map_arg] in E.
+    match type of E with (do _ <- ?c; _) = _ => destruct c as [mh| |] eqn:Eh end; cbn [bind] in E; try discriminate.
+    destruct (hashStruct_ok_member H big_other ts _ _ _ _ Eh tm Hin) as [w1 Hw1].
+    exact (reaches_ok H big_other ts _ _ _ _ _ _ Hr w1 Hw1).
+Qed.
+
 Theorem rejects_inexact_from_json H big_other td f' tn' tc t v' :
   doc_reaches td f' tn' v' -> (v' = GNumber t \/ v' = GString t) ->
   integer_member_type (effective_types (td_types td)) tn' tc ->
@@ -318,22 +337,45 @@ Proof.
   intros Hreach Hv Hty [Hc Hno].
   destruct (EncodeTypedDataV4 H big_other (Some td)) as [dg|e|] eqn:E; [exfalso|eauto|].
   2:{ exfalso. exact (EncodeTypedDataV4_total H big_other (Some td) E). }
-  assert (Hsub : exists w', encodeElement H big_other (effective_types (td_types td)) f' tn' v' = Ok w').
-  { unfold EncodeTypedDataV4 in E. cbv zeta in E. fold (effective_types (td_types td)) in E.
-    set (ts := effective_types (td_types td)) in *.
-    destruct (td_primary td) as [|pb pr] eqn:Ep; [discriminate|].
-    unfold HashStruct, fuel_of in E.
-    match type of E with (do _ <- ?c; _) = _ => destruct c as [dh| |] eqn:Ed end; cbn [bind] in E; try discriminate.
-    destruct Hreach as [(tm & Hin & Hr)|(Hne & msg & tm & Em & Hin & Hr)].
-    - destruct (hashStruct_ok_member H big_other ts _ _ _ _ Ed tm Hin) as [w1 Hw1].
-      exact (reaches_ok H big_other ts _ _ _ _ _ _ Hr w1 Hw1).
-    - rewrite Ep in Hne, Hin. rewrite Hne in E. cbn [negb] in E. rewrite Em in E. cbn [map_arg] in E.
-      match type of E with (do _ <- ?c; _) = _ => destruct c as [mh| |] eqn:Eh end; cbn [bind] in E; try discriminate.
-      destruct (hashStruct_ok_member H big_other ts _ _ _ _ Eh tm Hin) as [w1 Hw1].
-      exact (reaches_ok H big_other ts _ _ _ _ _ _ Hr w1 Hw1). }
-  destruct Hsub as [w' Hw']. destruct f' as [|f'']; [discriminate|].
+  destruct (doc_reaches_ok H big_other td f' tn' v' dg Hreach E) as [w' Hw'].
+  destruct f' as [|f'']; [discriminate|].
   destruct (integer_member_sound H big_other _ f'' tn' tc v' w' Hty Hw') as (z & Hz & Hr & _).
   assert (Hd : text_denotes t z).
   { destruct Hv as [-> | ->]; exact (BigIntegerFromString_sound big_other t z Hc Hz). }
   rewrite (Hno z Hd) in Hr. discriminate.
+Qed.
+
+(* the same for hex text: a position of type address / bytes / bytes<M> holding anything but a string
+   of hex digit pairs (optionally after "0x") makes the document an error *)
+Definition hex_member_type (allTypes : typeset) (tn : bytes) (tc : etc) : Prop :=
+  ends_with x5d tn = false /\ tlookup tn allTypes = None /\
+  abi_elementary_type tn = Ok tc /\ (e_base tc = EAddress \/ e_base tc = EBytes).
+
+Lemma hex_member_sound H big_other allTypes fuel tn tc v w :
+  hex_member_type allTypes tn tc ->
+  encodeElement H big_other allTypes (S fuel) tn v = Ok w -> exists b, get_bytes v = Ok b.
+Proof.
+  intros (Hend & Hlk & Htc & Hb) Hw. cbn [encodeElement] in Hw. rewrite Hend, Hlk in Hw. cbn [is_some] in Hw.
+  rewrite Htc in Hw. cbn [bind] in Hw.
+  destruct Hb as [Hb|Hb]; rewrite Hb in Hw.
+  - unfold abi_encode in Hw. rewrite Hb in Hw. destruct (get_bytes v) as [b| |]; [eauto|discriminate|discriminate].
+  - destruct (e_suffix tc) as [|sb sr].
+    + destruct (get_bytes v) as [b| |]; [eauto|discriminate|discriminate].
+    + unfold abi_encode in Hw. rewrite Hb in Hw. destruct (get_bytes v) as [b| |]; [eauto|discriminate|discriminate].
+Qed.
+
+Theorem rejects_bad_hex_from_json H big_other td f' tn' tc v' :
+  doc_reaches td f' tn' v' ->
+  hex_member_type (effective_types (td_types td)) tn' tc ->
+  (forall s b, v' = GString s -> ~ hex_denotes s b) ->
+  exists e, EncodeTypedDataV4 H big_other (Some td) = Err e.
+Proof.
+  intros Hreach Hty Hno.
+  destruct (EncodeTypedDataV4 H big_other (Some td)) as [dg|e|] eqn:E; [exfalso|eauto|].
+  2:{ exfalso. exact (EncodeTypedDataV4_total H big_other (Some td) E). }
+  destruct (doc_reaches_ok H big_other td f' tn' v' dg Hreach E) as [w' Hw'].
+  destruct f' as [|f'']; [discriminate|].
+  destruct (hex_member_sound H big_other _ f'' tn' tc v' w' Hty Hw') as [b Hb].
+  destruct v' as [|bb|tt|s|ll|mm]; try discriminate.
+  apply (Hno s b eq_refl). apply get_bytes_exact. exact Hb.
 Qed.
